@@ -8,7 +8,7 @@ def I(name, variant, *args, **kw):
 
 PARTS = {
   'C12': {
-    'quick': [I('iter-midop', 'base', 'phase=midop'), I('iter-midop-asan', 'asan', 'phase=midop')],
-    'thorough': [I('iter-midop', 'base', 'phase=midop'), I('iter-midop-asan', 'asan', 'phase=midop')],
+    'quick': [I('iter-midop', 'base', 'phase=midop', 'rangeneg=1', 'zipget=1', 'sliceget=1'), I('iter-midop-asan', 'asan', 'phase=midop', 'rangeneg=1', 'zipget=1', 'sliceget=1')],
+    'thorough': [I('iter-midop', 'base', 'phase=midop', 'rangeneg=1', 'zipget=1', 'sliceget=1'), I('iter-midop-asan', 'asan', 'phase=midop', 'rangeneg=1', 'zipget=1', 'sliceget=1')],
   },
 }
